@@ -290,7 +290,7 @@ func init() {
 	mutant(&Mutant{Name: "loadaof-truncate-before-adjust", Props: []string{"C04"}, File: fAOF,
 		Old:    "\t\t\t\ts.aofsz -= len(buf)\n\t\t\t\tif err := s.aof.Truncate(int64(s.aofsz)); err != nil {\n\t\t\t\t\treturn err\n\t\t\t\t}",
 		New:    "\t\t\t\tif err := s.aof.Truncate(int64(s.aofsz)); err != nil {\n\t\t\t\t\treturn err\n\t\t\t\t}\n\t\t\t\ts.aofsz -= len(buf)",
-		Expect: "R4.size-accounting", Key: "truncate-offset", Why: "the torn bytes stay in the file"})
+		Expect: "R4.size-accounting", Key: "file-size-at-return", Why: "the torn bytes stay in the file"})
 	mutant(&Mutant{Name: "loadaof-truncate-error-dropped", Props: []string{"C04"}, File: fAOF,
 		Old: "\t\t\t\tif err := s.aof.Truncate(int64(s.aofsz)); err != nil {\n\t\t\t\t\treturn err\n\t\t\t\t}", New: "\t\t\t\ts.aof.Truncate(int64(s.aofsz))",
 		Expect: "R4.size-accounting", Key: "truncate-error-returned", Why: "a failed repair goes unnoticed"})
@@ -573,7 +573,7 @@ func init() {
 		}
 	}
 	mutant(&Mutant{Name: "loadaof-tail-ignores-nuls", Props: []string{"C04"}, File: fAOF, Edits: tailEdits("", "tail := s.aofsz"),
-		Expect: "R4.size-accounting", Key: "truncate-offset", Why: "the seeded change C04: a running tail offset that the NUL-skip branch does not advance"})
+		Expect: "R4.size-accounting", Key: "file-size-at-return", Why: "the seeded change C04: a running tail offset that the NUL-skip branch does not advance"})
 	mutant(&Mutant{Name: "neutral-loadaof-tail-offset", Props: []string{"C04"}, File: fAOF, Neutral: true, Edits: tailEdits("\t\t\t\ttail++\n", "tail := s.aofsz"),
 		Why: "the same refactoring done right: every consumed byte advances the tail offset"})
 	mutant(&Mutant{Name: "loadaof-count-after-parse-skip", Props: []string{"C04"}, File: fAOF,
@@ -581,10 +581,10 @@ func init() {
 		Expect: "R4.size-accounting", Key: "aofsz-at-return", Why: "short reads are not counted"})
 	mutant(&Mutant{Name: "loadaof-truncate-keeps-one", Props: []string{"C04"}, File: fAOF,
 		Old: "\t\t\t\ts.aofsz -= len(buf)\n", New: "\t\t\t\ts.aofsz -= len(buf) - 1\n",
-		Expect: "R4.size-accounting", Key: "truncate-offset", Why: "off by one at the cut"})
+		Expect: "R4.size-accounting", Key: "file-size-at-return", Why: "off by one at the cut"})
 	mutant(&Mutant{Name: "loadaof-seek-old-size", Props: []string{"C04"}, File: fAOF,
 		Old: "\t\t\t\tif _, err := s.aof.Seek(int64(s.aofsz), 0); err != nil {", New: "\t\t\t\tif _, err := s.aof.Seek(int64(s.aofsz+len(buf)), 0); err != nil {",
-		Expect: "R4.size-accounting", Key: "seek-offset", Why: "write offset left beyond the cut"})
+		Expect: "R4.size-accounting", Key: "write-offset-at-return", Why: "write offset left beyond the cut"})
 	mutant(&Mutant{Name: "neutral-loadaof-cut-variable", Props: []string{"C04"}, File: fAOF, Neutral: true,
 		Old: "\t\t\t\ts.aofsz -= len(buf)\n\t\t\t\tif err := s.aof.Truncate(int64(s.aofsz)); err != nil {\n\t\t\t\t\treturn err\n\t\t\t\t}\n\t\t\t\tif _, err := s.aof.Seek(int64(s.aofsz), 0); err != nil {",
 		New: "\t\t\t\tcut := int64(s.aofsz - len(buf))\n\t\t\t\tif err := s.aof.Truncate(cut); err != nil {\n\t\t\t\t\treturn err\n\t\t\t\t}\n\t\t\t\ts.aofsz = int(cut)\n\t\t\t\tif _, err := s.aof.Seek(cut, 0); err != nil {",
@@ -669,4 +669,142 @@ func init() {
 		Old: "\t\t\toldNearbys[i] = oldNearbys[len(oldNearbys)-1]\n\t\t\toldNearbys = oldNearbys[:len(oldNearbys)-1]\n\t\t\ti--\n",
 		New: "\t\t\toldNearbys = append(oldNearbys[:i], oldNearbys[i+1:]...)\n\t\t\ti--\n",
 		Why: "order-preserving removal that re-examines slot i"})
+}
+
+func init() {
+	// ---- R13 (C13) ----------------------------------------------------------
+	fSearch := "internal/server/search.go"
+	fGeod := "internal/collection/geodesic.go"
+	mutant(&Mutant{Name: "nearby-centre-transposed", Props: []string{"C13"}, File: fColl,
+		Old: "distFn := geodeticDistAlgo([2]float64{center.X, center.Y})", New: "distFn := geodeticDistAlgo([2]float64{center.Y, center.X})",
+		Expect: "R13.traversal-distance", Key: "algo-of-centre", Why: "results ordered by the distance to the mirrored point"})
+	mutant(&Mutant{Name: "nearby-iter-recomputes-distance", Props: []string{"C13"}, File: fColl,
+		Old: "\t\t\tnextStep(count, cursor, deadline)\n\t\t\talive = iter(o, dist)\n", New: "\t\t\tnextStep(count, cursor, deadline)\n\t\t\talive = iter(o, o.Geo().Distance(target))\n",
+		Expect: "R13.traversal-distance", Key: "iterator-gets-traversal-distance", Why: "reported distance and cut-off use another distance than the ordering"})
+	mutant(&Mutant{Name: "nearby-min-max-swapped", Props: []string{"C13"}, File: fColl,
+		Old:    "\t\t\t\t[2]float64{float64(min[0]), float64(min[1])},\n\t\t\t\t[2]float64{float64(max[0]), float64(max[1])},",
+		New:    "\t\t\t\t[2]float64{float64(min[1]), float64(min[0])},\n\t\t\t\t[2]float64{float64(max[0]), float64(max[1])},",
+		Expect: "R13.traversal-distance", Key: "distance-callback-forwards", Why: "node boxes transposed for the lower bound"})
+	mutant(&Mutant{Name: "geodesic-item-keeps-index-box", Props: []string{"C13"}, File: fGeod,
+		Old:    "\t\tif item {\n\t\t\tr := obj.Rect()\n\t\t\tmin[0] = r.Min.X\n\t\t\tmin[1] = r.Min.Y\n\t\t\tmax[0] = r.Max.X\n\t\t\tmax[1] = r.Max.Y\n\t\t}\n",
+		New:    "\t\t_ = item\n",
+		Expect: "R13.item-distance-exact", Key: "item-uses-own-rect", Why: "DISTANCE quantised to the float32 index box"})
+	mutant(&Mutant{Name: "geodesic-item-y-from-x", Props: []string{"C13"}, File: fGeod,
+		Old: "\t\t\tmax[1] = r.Max.Y\n", New: "\t\t\tmax[1] = r.Max.X\n",
+		Expect: "R13.item-distance-exact", Key: "item-uses-own-rect", Why: "copy-paste axis slip"})
+	mutant(&Mutant{Name: "geodesic-replace-nodes-too", Props: []string{"C13"}, File: fGeod,
+		Old: "\t\tif item {\n\t\t\tr := obj.Rect()", New: "\t\tif item || obj != nil {\n\t\t\tr := obj.Rect()",
+		Expect: "R13.item-distance-exact", Key: "replacement-only-for-items", Why: "node lower bounds replaced by an object's box"})
+	mutant(&Mutant{Name: "geodesic-lat-lng-transposed", Props: []string{"C13"}, File: fGeod,
+		Old: "\t\t\tmin[1], min[0],\n", New: "\t\t\tmin[0], min[1],\n",
+		Expect: "R13.item-distance-exact", Key: "lat-lng-argument-order", Why: "one pair transposed"})
+	mutant(&Mutant{Name: "geodesic-deg-args-shifted", Props: []string{"C13"}, File: fGeod,
+		Old: "\t\tminLat*math.Pi/180, minLng*math.Pi/180,\n", New: "\t\tminLng*math.Pi/180, minLat*math.Pi/180,\n",
+		Expect: "R13.item-distance-exact", Key: "degrees-to-radians-one-to-one", Why: "arguments forwarded out of order"})
+	mutant(&Mutant{Name: "nearby-radius-exclusive", Props: []string{"C13"}, File: fSearch,
+		Old: "\t\t\t\tif maxDist > 0 && dist > maxDist {\n\t\t\t\t\treturn false\n\t\t\t\t}", New: "\t\t\t\tif maxDist > 0 && dist >= maxDist {\n\t\t\t\t\treturn false\n\t\t\t\t}",
+		Expect: "R13.radius-cutoff", Key: "delivery-within-radius", Why: "objects at exactly the radius are dropped"})
+	mutant(&Mutant{Name: "nearby-no-cutoff", Props: []string{"C13"}, File: fSearch,
+		Old: "\t\t\t\tif maxDist > 0 && dist > maxDist {\n\t\t\t\t\treturn false\n\t\t\t\t}\n", New: "",
+		Expect: "R13.radius-cutoff", Key: "delivery-within-radius", Why: "radius ignored"})
+	mutant(&Mutant{Name: "nearby-distance-zeroed", Props: []string{"C13"}, File: fSearch,
+		Old: "\t\t\t\tif sargs.distance {\n\t\t\t\t\tmeters = dist\n\t\t\t\t}\n\t\t\t\treturn iterStep(o, meters)", New: "\t\t\t\tif sargs.distance {\n\t\t\t\t\tmeters = maxDist\n\t\t\t\t}\n\t\t\t\treturn iterStep(o, meters)",
+		Expect: "R13.radius-cutoff", Key: "reported-distance-is-traversal-distance", Why: "DISTANCE reports the radius"})
+	mutant(&Mutant{Name: "neutral-nearby-cutoff-continues", Props: []string{"C13", "C12"}, File: fSearch, Neutral: true,
+		Old: "\t\t\t\tif maxDist > 0 && dist > maxDist {\n\t\t\t\t\treturn false\n\t\t\t\t}", New: "\t\t\t\tif maxDist > 0 && dist > maxDist {\n\t\t\t\t\treturn true\n\t\t\t\t}",
+		Why: "same result, only slower: objects beyond the radius are skipped instead of ending the traversal"})
+	mutant(&Mutant{Name: "neutral-nearby-cutoff-positive-form", Props: []string{"C13"}, File: fSearch, Neutral: true,
+		Old: "\t\t\t\tif maxDist > 0 && dist > maxDist {\n\t\t\t\t\treturn false\n\t\t\t\t}\n\t\t\t\tvar meters float64\n\t\t\t\tif sargs.distance {\n\t\t\t\t\tmeters = dist\n\t\t\t\t}\n\t\t\t\treturn iterStep(o, meters)",
+		New: "\t\t\t\tif maxDist <= 0 || dist <= maxDist {\n\t\t\t\t\tvar meters float64\n\t\t\t\t\tif sargs.distance {\n\t\t\t\t\t\tmeters = dist\n\t\t\t\t\t}\n\t\t\t\t\treturn iterStep(o, meters)\n\t\t\t\t}\n\t\t\t\treturn false",
+		Why: "the cut-off written as a positive test"})
+}
+
+func init() {
+	// ---- rules added after the second round of seeded changes ------------------
+	fFence := "internal/server/fence.go"
+	mutant(&Mutant{Name: "loadaof-seek-relative-after-truncate", Props: []string{"C04"}, File: fAOF,
+		Old:    "\t\t\t\ts.aofsz -= len(buf)\n\t\t\t\tif err := s.aof.Truncate(int64(s.aofsz)); err != nil {\n\t\t\t\t\treturn err\n\t\t\t\t}\n\t\t\t\tif _, err := s.aof.Seek(int64(s.aofsz), 0); err != nil {\n\t\t\t\t\treturn err\n\t\t\t\t}",
+		New:    "\t\t\t\tif err := s.aof.Truncate(int64(s.aofsz - len(buf))); err != nil {\n\t\t\t\t\treturn err\n\t\t\t\t}\n\t\t\t\tpos, err := s.aof.Seek(-int64(len(buf)), io.SeekEnd)\n\t\t\t\tif err != nil {\n\t\t\t\t\treturn err\n\t\t\t\t}\n\t\t\t\ts.aofsz = int(pos)",
+		Expect: "R4.size-accounting", Key: "write-offset-at-return", Why: "second seeded change for C04: relative seek computed against the already truncated file"})
+	mutant(&Mutant{Name: "neutral-loadaof-seek-end", Props: []string{"C04"}, File: fAOF, Neutral: true,
+		Old: "\t\t\t\tif _, err := s.aof.Seek(int64(s.aofsz), 0); err != nil {",
+		New: "\t\t\t\tif _, err := s.aof.Seek(0, io.SeekEnd); err != nil {",
+		Why: "seeking to the end of the truncated file is the same offset"})
+	mutant(&Mutant{Name: "neutral-loadaof-size-from-seek", Props: []string{"C04"}, File: fAOF, Neutral: true,
+		Old: "\t\t\t\ts.aofsz -= len(buf)\n\t\t\t\tif err := s.aof.Truncate(int64(s.aofsz)); err != nil {\n\t\t\t\t\treturn err\n\t\t\t\t}\n\t\t\t\tif _, err := s.aof.Seek(int64(s.aofsz), 0); err != nil {\n\t\t\t\t\treturn err\n\t\t\t\t}",
+		New: "\t\t\t\tif err := s.aof.Truncate(int64(s.aofsz - len(buf))); err != nil {\n\t\t\t\t\treturn err\n\t\t\t\t}\n\t\t\t\tpos, err := s.aof.Seek(0, io.SeekEnd)\n\t\t\t\tif err != nil {\n\t\t\t\t\treturn err\n\t\t\t\t}\n\t\t\t\ts.aofsz = int(pos)",
+		Why: "the size taken from the offset Seek returns"})
+	mutant(&Mutant{Name: "sethook-equal-takes-deadline", Props: []string{"C03", "C14"}, File: fHooks,
+		Old:    "\t\t\tprevHook.Signal()\n\t\t\tif !hook.expires.IsZero() {\n\t\t\t\ts.hookExpires.Set(hook)\n\t\t\t}",
+		New:    "\t\t\tprevHook.expires = hook.expires\n\t\t\tprevHook.Signal()\n\t\t\tif !hook.expires.IsZero() {\n\t\t\t\ts.hookExpires.Set(prevHook)\n\t\t\t}",
+		Expect: "R3.hook-immutable", Key: "Hook.expires", Why: "second seeded change for C03: the equal-hook path changes the registered hook and is not logged"})
+	mutant(&Mutant{Name: "delhook-clears-endpoints", Props: []string{"C03"}, File: fHooks,
+		Old:    "\thook.Close()\n\t// remove previous hook from spatial index",
+		New:    "\thook.Close()\n\thook.Endpoints = nil\n\t// remove previous hook from spatial index",
+		Expect: "R3.hook-immutable", Key: "Hook.Endpoints", Why: "a registered hook changed in place"})
+	mutant(&Mutant{Name: "fence-cross-alias-no-restore", Props: []string{"C05"}, File: fFence,
+		Old:    "\t\t\t\t\t\ttemp := false\n\t\t\t\t\t\tif fence.cmd == \"within\" {\n\t\t\t\t\t\t\t// because we are testing if the line croses the area we need to use\n\t\t\t\t\t\t\t// \"intersects\" instead of \"within\".\n\t\t\t\t\t\t\tfence.cmd = \"intersects\"\n\t\t\t\t\t\t\ttemp = true\n\t\t\t\t\t\t}",
+		New:    "\t\t\t\t\t\ttemp := false\n\t\t\t\t\t\txfence := fence\n\t\t\t\t\t\tif xfence.cmd == \"within\" {\n\t\t\t\t\t\t\txfence.cmd = \"intersects\"\n\t\t\t\t\t\t}",
+		Expect: "R5.switches-restored", Key: "fenceMatch→cmd", Why: "second seeded change for C05: the 'copy' is an alias and nothing restores the switch"})
+	mutant(&Mutant{Name: "fence-cross-restore-skipped-on-match", Props: []string{"C05"}, File: fFence,
+		Old:    "\t\t\t\t\t\tif fenceMatchObject(fence, lso) {\n\t\t\t\t\t\t\tdetect = \"cross\"\n\t\t\t\t\t\t}\n\t\t\t\t\t\tif temp {",
+		New:    "\t\t\t\t\t\tif fenceMatchObject(fence, lso) {\n\t\t\t\t\t\t\tdetect = \"cross\"\n\t\t\t\t\t\t} else if temp {",
+		Expect: "R5.switches-restored", Key: "fenceMatch→cmd", Why: "restored only when the crossing test failed"})
+	mutant(&Mutant{Name: "neutral-fence-cross-real-copy", Props: []string{"C05"}, File: fFence, Neutral: true,
+		Old: "\t\t\t\t\t\ttemp := false\n\t\t\t\t\t\tif fence.cmd == \"within\" {\n\t\t\t\t\t\t\t// because we are testing if the line croses the area we need to use\n\t\t\t\t\t\t\t// \"intersects\" instead of \"within\".\n\t\t\t\t\t\t\tfence.cmd = \"intersects\"\n\t\t\t\t\t\t\ttemp = true\n\t\t\t\t\t\t}\n\t\t\t\t\t\tlso := object.New(\"\", ls, 0, field.List{})\n\t\t\t\t\t\tif fenceMatchObject(fence, lso) {\n\t\t\t\t\t\t\tdetect = \"cross\"\n\t\t\t\t\t\t}\n\t\t\t\t\t\tif temp {\n\t\t\t\t\t\t\tfence.cmd = \"within\"\n\t\t\t\t\t\t}",
+		New: "\t\t\t\t\t\txfence := *fence\n\t\t\t\t\t\tif xfence.cmd == \"within\" {\n\t\t\t\t\t\t\txfence.cmd = \"intersects\"\n\t\t\t\t\t\t}\n\t\t\t\t\t\tlso := object.New(\"\", ls, 0, field.List{})\n\t\t\t\t\t\tif fenceMatchObject(&xfence, lso) {\n\t\t\t\t\t\t\tdetect = \"cross\"\n\t\t\t\t\t\t}",
+		Why: "the refactoring done right: a value copy of the switches"})
+	mutant(&Mutant{Name: "rename-set-then-delete", Props: []string{"C01"}, File: fCrud,
+		Old:    "\tif updated {\n\t\ts.cols.Delete(key)\n\t\ts.cols.Set(newKey, col)\n\t}",
+		New:    "\tif updated {\n\t\ts.cols.Set(newKey, col)\n\t\ts.cols.Delete(key)\n\t}",
+		Expect: "R1.alias-safe-update", Key: "cmdRENAME→Set(newKey)…Delete(key)", Why: "second seeded change for C01: RENAME k k stores and then deletes the same slot"})
+	mutant(&Mutant{Name: "neutral-rename-set-then-delete-guarded", Props: []string{"C01"}, File: fCrud, Neutral: true,
+		Old: "\tif updated {\n\t\ts.cols.Delete(key)\n\t\ts.cols.Set(newKey, col)\n\t}",
+		New: "\tif updated {\n\t\ts.cols.Set(newKey, col)\n\t\tif key != newKey {\n\t\t\ts.cols.Delete(key)\n\t\t}\n\t}",
+		Why: "store first, delete the source only when it is another key"})
+	mutant(&Mutant{Name: "rtree-up-branch-free-wrong-sign", Props: []string{"C02"}, File: fColl,
+		Old:    "\tif float64(f) < d {\n\t\tif d < 0 {\n\t\t\tf = float32(d * dRNDTOWARDS)\n\t\t} else {\n\t\t\tf = float32(d * dRNDAWAY)\n\t\t}\n\t}",
+		New:    "\tif float64(f) < d {\n\t\tf = float32(d + d*(1.0/8388608.0))\n\t}",
+		Expect: "R2.outward-direction", Key: "rtreeValueUp/nudge@", Why: "second seeded change for C02: the branch-free form forgets |d|, negative Max coordinates are nudged down"})
+	mutant(&Mutant{Name: "neutral-rtree-branch-free", Props: []string{"C02"}, File: fColl, Neutral: true,
+		Old: "\tif float64(f) < d {\n\t\tif d < 0 {\n\t\t\tf = float32(d * dRNDTOWARDS)\n\t\t} else {\n\t\t\tf = float32(d * dRNDAWAY)\n\t\t}\n\t}",
+		New: "\tif float64(f) < d {\n\t\tf = float32(d + math.Abs(d)*(1.0/8388608.0))\n\t}",
+		Why: "the branch-free form done right (identical values)"})
+	mutant(&Mutant{Name: "rtree-down-keeps-wrong-side", Props: []string{"C02"}, File: fColl,
+		Old:    "func rtreeValueDown(d float64) float32 {\n\tf := float32(d)\n\tif float64(f) > d {",
+		New:    "func rtreeValueDown(d float64) float32 {\n\tf := float32(d)\n\tif float64(f) < d {",
+		Expect: "R2.outward-direction", Key: "rtreeValueDown/plain-conversion-kept-only-if-outward", Why: "the correction is applied on the wrong side"})
+	mutant(&Mutant{Name: "rtree-rect-max-rounded-down", Props: []string{"C02"}, File: fColl,
+		Old: "\t\t\trtreeValueUp(rect.Max.X),", New: "\t\t\trtreeValueDown(rect.Max.X),",
+		Expect: "R2.outward-direction", Key: "roles", Why: "one Max coordinate rounded inward"})
+}
+
+func init() {
+	mutant(&Mutant{Name: "flushaof-skips-small-buffers", Props: []string{"C08"}, File: fAOF,
+		Old:    "func (s *Server) flushAOF(sync bool) {\n\tif len(s.aofbuf) > 0 {",
+		New:    "func (s *Server) flushAOF(sync bool) {\n\tif !sync && len(s.aofbuf) < 4096 {\n\t\treturn\n\t}\n\tif len(s.aofbuf) > 0 {",
+		Expect: "R8.flush-complete", Key: "write-unconditional", Why: "a 'batch small writes' optimisation: the pre-write returns without writing and the reply goes out"})
+	mutant(&Mutant{Name: "neutral-flushaof-early-return-empty", Props: []string{"C08"}, File: fAOF, Neutral: true,
+		Old:    "func (s *Server) flushAOF(sync bool) {\n\tif len(s.aofbuf) > 0 {",
+		New:    "func (s *Server) flushAOF(sync bool) {\n\tif len(s.aofbuf) == 0 {\n\t\treturn\n\t}\n\tif len(s.aofbuf) > 0 {",
+		Why:    "an early return for the empty buffer"})
+}
+
+func init() {
+	mutant(&Mutant{Name: "shrink-skips-nearly-expired", Props: []string{"C09"}, File: fShrink,
+		Old:    "\t\t\t\t\t\t\tif o.Expires() != 0 {\n\t\t\t\t\t\t\t\tttl := math.Floor(",
+		New:    "\t\t\t\t\t\t\tif o.Expires() != 0 && o.Expires() > now {\n\t\t\t\t\t\t\t\tttl := math.Floor(",
+		Expect: "R9.emit-covers-state", Key: "object/ex", Why: "an object past its deadline but not yet swept is rewritten without a deadline and becomes permanent"})
+	mutant(&Mutant{Name: "shrink-drops-negative-fields", Props: []string{"C09"}, File: fShrink,
+		Old:    "\t\t\t\t\t\t\t\tif !f.Value().IsZero() {\n",
+		New:    "\t\t\t\t\t\t\t\tif !f.Value().IsZero() && f.Value().Num() >= 0 {\n",
+		Expect: "R9.emit-covers-state", Key: "object/field", Why: "an extra condition on which fields are rewritten"})
+	mutant(&Mutant{Name: "shrink-hook-drops-metas", Props: []string{"C09"}, File: fShrink,
+		Old:    "\t\t\t\tfor _, meta := range hook.Metas {\n\t\t\t\t\tvalues = append(values, \"meta\", meta.Name, meta.Value)\n\t\t\t\t}\n",
+		New:    "",
+		Expect: "R9.emit-covers-state", Key: "hook/meta", Why: "hook metas lost by the rewrite"})
+	mutant(&Mutant{Name: "shrink-hook-ex-only-for-hooks", Props: []string{"C09"}, File: fShrink,
+		Old:    "\t\t\t\tif !hook.expires.IsZero() {\n\t\t\t\t\tex := float64(time.Until(hook.expires))",
+		New:    "\t\t\t\tif !hook.expires.IsZero() && !hook.channel {\n\t\t\t\t\tex := float64(time.Until(hook.expires))",
+		Expect: "R9.emit-covers-state", Key: "hook/ex", Why: "channels lose their expiration"})
 }
